@@ -125,7 +125,7 @@ def fser (Mp : MapEnv) (NF JK : List String) : FieldDecl → PyVal → R PyVal
     else fList (mapE (fser Mp NF JK item)) v
   | .seqOf .deque item _, v => fList (mapE (fser Mp NF JK item)) v
   | .seqPos .list items _ _, v => fList (fserZipRaw Mp NF JK items) v    -- surplus elements: `deepcopy(x)`
-  | .seqPos .deque items _ _, v => fList (fserZip Mp NF JK items) v
+  | .seqPos .deque items _ _, v => fList (fserZipRaw Mp NF JK items) v   -- surplus elements passed through (like Array)
   | .seqAny _ _, v => fList (fun xs => .ok xs) v              -- `deepcopy(list(value))`
   | .setOf _ item _, v =>
     if nonFastRef NF item then fList lateLookup v
@@ -139,8 +139,10 @@ def fser (Mp : MapEnv) (NF JK : List String) : FieldDecl → PyVal → R PyVal
   | .mapAny _, v => (match v with | .dict kvs => .ok (.dict kvs) | _ => .error .typeErr)  -- `deepcopy(dict(value))`
   | .struct c fields defaults, v =>
     if c.inline then
-      -- StructureReference.serialize: every field, unset ones included (None)
-      bindE (fInline Mp NF JK defaults (attrsOf v) fields) fun r => .ok (.dict r)
+      -- StructureReference.serialize: every field, unset ones included (None): `getattr(value, name, None)`
+      -- reads the field's default from a Structure instance, and None from anything else (a trusted
+      -- instance holds the raw dict it was given)
+      bindE (fInline Mp NF JK (match v with | .inst _ _ => defaults | _ => []) (attrsOf v) fields) fun r => .ok (.dict r)
     else if NF.contains c.name then .error .typeErr        -- `getattr(cls, "serialize", None)(value)`
     else (match v with
       | .inst _ attrs =>
@@ -210,13 +212,20 @@ end
 def nonNoneCount (fs : List FieldDecl) : Nat := (fs.filter fun f => !isNoneF f).length
 
 mutual
-/-- `_verify_is_fast_serializable(field)` does not raise -/
+/-- `_verify_is_fast_serializable(field)` does not raise: every field whose `serialize` the field's
+    own `serialize` calls is verified too (`_nested_fields`: the item field(s) of a collection, the
+    options of an `AnyOf`) -/
 def verifyOk (Mp : MapEnv) (NF : List String) : FieldDecl → Bool
-  | .seqOf .list item _ => verifyOk Mp NF item
+  | .seqOf _ item _ => verifyOk Mp NF item
+  | .setOf _ item _ => verifyOk Mp NF item
+  | .tupleOf item _ => verifyOk Mp NF item
+  | .tuplePos items _ => verifyL Mp NF items
+  | .seqPos _ items _ _ => verifyL Mp NF items
+  | .mapOf kf vf _ => verifyOk Mp NF kf && verifyOk Mp NF vf
+  | .anyOf fs => verifyL Mp NF fs
   | .struct c fields _ =>
     if c.inline then true
     else !NF.contains c.name && !(Mp c.name).isComplex && createFields Mp NF fields
-  | .seqOf .deque _ _ => true
   | .number _ => true
   | .integer _ => true
   | .float _ => true
@@ -226,19 +235,18 @@ def verifyOk (Mp : MapEnv) (NF : List String) : FieldDecl → Bool
   | .enumLit _ => true
   | .enumCls _ _ => true
   | .seqAny _ _ => true
-  | .seqPos _ _ _ _ => true
   | .setAny _ _ => true
-  | .setOf _ _ _ => true
-  | .tupleOf _ _ => true
-  | .tuplePos _ _ => true
   | .mapAny _ => true
-  | .mapOf _ _ _ => true
-  | .anyOf _ => true
   | .oneOf _ => true
   | .allOf _ => true
   | .notF _ => true
   | .anything => true
 termination_by structural f => f
+
+def verifyL (Mp : MapEnv) (NF : List String) : List FieldDecl → Bool
+  | [] => true
+  | f :: fs => verifyOk Mp NF f && verifyL Mp NF fs
+termination_by structural fs => fs
 
 /-- every field's getter can be built -/
 def createFields (Mp : MapEnv) (NF : List String) : List (String × FieldDecl) → Bool
@@ -288,10 +296,11 @@ def serializeCompact (O : Oracles) (compact : Bool) (cls : FieldDecl) (x : PyVal
 /-! ### order of first use: when does the class get its serializer -/
 
 /-- `FastSerializable.__init__` installs the class's serializer (when it has none); the validating
-    constructor reaches it once, the trusted branch of `Structure.__init__` calls
-    `super().__init__()` inside its `for key, value in kwargs.items()` loop: once per keyword, and
-    never for an instance made from no values.  `had` = the class already has its serializer. -/
-def installedAfterTrustedInit (had : Bool) (kw : List (String × PyVal)) : Bool := had || !kw.isEmpty
+    constructor reaches it once, and so does the trusted branch of `Structure.__init__` (one
+    `super().__init__()` per instance — before the repair of `first-use-order:no-values` it sat
+    inside the loop over the supplied keywords, so an instance made from no values never reached
+    it).  `had` = the class already has its serializer. -/
+def installedAfterTrustedInit (_had : Bool) (_kw : List (String × PyVal)) : Bool := true
 
 /-- `x.serialize()` of an instance the trusted constructor built from the keywords `attrsOf x`
     (trusted deserialization, `from_trusted_data`, `trust_supplied_values()` + constructor), on a
